@@ -35,13 +35,14 @@ def enc_str_list(l):
 
 # CODE VARIANT FLAGS — the variant of the code the model is compared with (Model/Console.lean `Variant`).
 # Values match TODAY's /repo.
-# (For checking a pending fix:  VERIF_REPO=<worktree> VERIF_C15_FLAGS=<3 digits> ./check C15  overrides them for one run.)
+# (For checking a pending fix:  VERIF_REPO=<worktree> VERIF_C15_FLAGS=<4 digits> ./check C15  overrides them for one run.)
 RECORD_IN_RENDER = 1  # 1: `_render_buffer` appends to the record, so `end_capture` records (F17).  0: repaired.
 MERGE_CTL = 0  # 0: Segment.simplify never merges into/after a control segment (F18 repaired in b97fe77).
 ESCAPE_HREF = 0  # 0: export_html writes style.link verbatim into href="…".  1: repaired (html.escape).
+CAPTURE_MARKS = 0  # 0: end_capture returns (and empties) the whole thread buffer, so nested blocks steal.  1: repaired.
 
 if os.environ.get("VERIF_C15_FLAGS"):
-    RECORD_IN_RENDER, MERGE_CTL, ESCAPE_HREF = (int(ch) for ch in os.environ["VERIF_C15_FLAGS"])
+    RECORD_IN_RENDER, MERGE_CTL, ESCAPE_HREF, CAPTURE_MARKS = (int(ch) for ch in os.environ["VERIF_C15_FLAGS"])
 
 FIXED_DT = datetime.datetime(2020, 1, 2, 3, 4, 5)
 CTL_CODES = ["\x07", "\x1b[2J", "\x1b[H", "\x1b[1A\x1b[2K", "\r", "\x1b[?25l", "\x08"]
@@ -497,7 +498,7 @@ def eval_history(ctx, cfg, ops, tag):
     if "?" in enc_ops:
         ctx.note("unmodelled-template")
         return
-    head = [f"{RECORD_IN_RENDER}{MERGE_CTL}{ESCAPE_HREF}", model_config(cfg), table, "/".join(enc_ops)]
+    head = [f"{RECORD_IN_RENDER}{MERGE_CTL}{ESCAPE_HREF}{CAPTURE_MARKS}", model_config(cfg), table, "/".join(enc_ops)]
     shape = f"{tag}:len{min(len(ops) // 5 * 5, 40)}"
     sample = f"{cfg!r} {ops!r}" if len(repr(ops)) < 700 else None
     answer = "\t".join([enc_str_list([canon(w) for w in f.writes]), ",".join(outs), final_rec, final_state])
@@ -858,8 +859,10 @@ MANIFEST = {
     "removed and the three entities decoded = the exported text, both inline_styles modes; unescape(escape s) = s proved at "
     "string level; simplify + filter_control lose only control segments); export_styled_decodes (same characters in the "
     "wrapper of their own segment's style; equal to the file's stream when colour is on); capture_returns_and_withholds (a "
-    "non-nested block returns character for character what the same operations write outside a capture, nothing reaches the "
-    "file at depth >= 1, nothing is recorded); clear_semantics. Proved for the repaired variant; `old_...` witnesses (by "
+    "block returns character for character what the same operations write outside a capture, nothing reaches the file "
+    "while the depth is >= 1, nothing is recorded; capture_block_transparent: with the repaired marks a block at any depth "
+    "returns its own output and leaves the enclosing block untouched); clear_semantics; reachable_outside_empty. Proved for "
+    "the repaired variant; `old_...` witnesses (by "
     "evaluation) show today's code violating them. Tie: ~8k (quick) / ~250k (thorough) histories per run executed on real "
     "rich.console.Console and on the model (file writes, every return value, final record, buffer and depth compared), plus the "
     "theorems' executable statements evaluated on rich's own outputs with independent oracles (terminal-stream tokenizer, "
@@ -870,10 +873,11 @@ MANIFEST = {
     "modelled. (3) 'Visible text of the file' is stated on structured pieces (escape wrapper / text / control), and HTML tags on "
     "structured fragments for which the string-level stripTags is proved; the string-level reading of ANSI escapes is done by the "
     "harness tokenizer only. (4) Escape codes are compared after canonicalising link ids and SGR colour parameters (F7 makes exact "
-    "colour codes history dependent). (5) Nested capture blocks: the theorem covers blocks without begin/end inside; on the code "
-    "as it is an inner end_capture returns the enclosing block's pending output (witness nested_capture_steals, finding "
-    "nested-capture-steals). (6) Only the {code} part of the HTML document is covered by export_html_text; the template is "
+    "colour codes history dependent). (5) Nested capture blocks: capture_returns_and_withholds / capture_block_transparent speak of "
+    "one block whose direct content has no begin/end; arbitrary nesting follows by composing them but is not stated as one "
+    "theorem. On the code as it is an inner end_capture returns the enclosing block's pending output (witness "
+    "nested_capture_steals, finding nested-capture-steals). (6) Only the {code} part of the HTML document is covered by export_html_text; the template is "
     "covered by the correspondence. (7) Single thread, is_jupyter False, no render hooks, pager and save_* out of scope. "
-    "Open findings on today's tree: capture-recorded (F17), html-href-unescaped, nested-capture-steals.",
+    "Open findings on today's tree (pending_fixes/C15-*.diff): capture-recorded (F17), html-href-unescaped, nested-capture-steals.",
     "design_ref": "DESIGN.md section 7, C15",
 }
